@@ -159,7 +159,7 @@ func Includes(quick bool) Family {
 
 // Backrefs: entering rules with 0/1/2 groups, body rules referring to them.
 func Backrefs(quick bool) Family {
-	enters := []string{`(a)`, `(a)(b)`, `a`, `(a)|b`, `(\.)`, `(\()`, `(a*)b`, `(a|\.)(b?)`}
+	enters := []string{`(a)`, `(a)(b)`, `a`, `(a)|b`, `(\.)`, `(\()`, `(a*)b`, `(a|\.)(b?)`, `(a)?(b)`, `(?:(\.)|(a))(b)?`}
 	bodies := []string{`\1`, `\2`, `x\1`, `\1\1`, `\\1`, `\\\1`, `\0`, `\1|x`, `\1\\2`, `\\1\2`}
 	var defs []m.Def
 	for _, e := range enters {
